@@ -11,6 +11,8 @@ CONSTANTS
   CRProg <- I_CR
   Forms = {"once"}
   Colls = {"k1"}
+  LAs <- NoLA_I
+  DropOn = FALSE
   QuitOn = FALSE
   QuitDeferred = FALSE
   DefCap = 0
